@@ -272,3 +272,45 @@ func VfC11_IDs() {
 	kind3, _ := hLexVar(l[:len(l)-1], false, true)
 	vfAssert("C11.label.id-kind", kind3 == hKindID)
 }
+
+// VfC11_LongDigitNames: names made of 19 to 21 decimal digits (symbolic), i.e.
+// around and beyond the range of a 64-bit integer, in the global, local, label
+// and comdat positions: the printed token is a *name* for LLVM's lexer (an
+// unquoted run of digits would be an unnamed ID, or no token at all after '$')
+// and denotes exactly those digits.
+//
+//vf:unwind 120
+//vf:shards 4
+func VfC11_LongDigitNames() {
+	posIdx := vfChoice("pos", 4)
+	pos := [...]int{0, 1, 2, 4}[posIdx]
+	n := vfLen("n", 19, 21)
+	s := vfString("s", n)
+	for i := 0; i < len(s); i++ {
+		vfAssume(hIsDigit(s[i]))
+	}
+	var tok string
+	switch pos {
+	case 0:
+		tok = GlobalName(s)
+	case 1:
+		tok = LocalName(s)
+	case 2:
+		tok = LabelName(s)
+	default:
+		tok = ComdatName(s)
+	}
+	vfReach("C11.long-digits")
+	vfObserveStr("tok", tok)
+	var body string
+	if pos == 2 {
+		body = tok[:len(tok)-1]
+	} else {
+		body = tok[1:]
+	}
+	kind, name := hLexVar(body, pos == 4, pos == 2)
+	vfAssert("C11.long-digits.llvm-kind", kind == hKindName)
+	if kind == hKindName {
+		vfAssert("C11.long-digits.llvm-roundtrip", name == s)
+	}
+}
